@@ -234,6 +234,10 @@ def gen(rng, tier):
     if never and rng.random() < 0.1:
         plan.append(['until_ev', rng.choice(never)])
     plan.append(['run'])
+    if rng.random() < 1 / 100:
+        # a long life before the stops: some 65536 unrecorded filler events first (sequence numbers, packed sort keys)
+        case['setup'] = [{'k': 'proc', 'id': 'lt', 'ops': [{'op': 'tick', 'n': 65536 + rng.randint(-30, 400)}]}] + case['setup']
+        case['long_run'] = True
     case['drive'] = plan
     return case
 
@@ -384,8 +388,9 @@ def check_split(w, case, ref_log):
 def run(case):
     if case.get('engine') == 'N':
         return run_net(case)
+    cap = 4000 + (90000 if case.get('long_run') else 0)
     ref = setup_world(case)
-    drive(ref, [['run']], max_steps=4000)
+    drive(ref, [['run']], max_steps=cap)
     ref_log = ref.env.log
     crashy = any(r[0] == 'X' for r in ref_log)
     plan = list(case.get('drive', [])) + [['run']]
@@ -393,7 +398,7 @@ def run(case):
         # a condition the driver builds would count as the handler of an operand's failure: only in crash-free programs
         plan = [['steps', 3] if it[0] == 'until_cond' else it for it in plan]
     w = setup_world(case)
-    steps = drive(w, plan, max_steps=4000)
+    steps = drive(w, plan, max_steps=cap)
     case2 = dict(case)
     case2['drive'] = plan
     viol, stats, stops = check_split(w, case2, ref_log)
